@@ -21,12 +21,15 @@ def _level_name(base, n):
 def gen_metrics(rnd, n_einsums=None, force=None):
     if n_einsums in (None, 1) and force is None and rnd.random() < 0.12:
         return gen_merger(rnd)
+    if n_einsums in (None, 2) and force is None and rnd.random() < 0.08:
+        return gen_lf_shared(rnd)
     pool = ["M", "N", "K", "J"]
     nr = rnd.randint(2, 3)
     perm = rnd.sample(pool, nr)           # global rank precedence (concordant everywhere)
     n = n_einsums or rnd.choice([1, 1, 2, 2, 3])
     decl = {}
     exprs = []
+    reused = False
     fresh = iter("ABCDEFGHIJKLMNOPQRSVWXY")
     outs = ["T", "U", "Z"]
     prev = None
@@ -45,6 +48,20 @@ def gen_metrics(rnd, n_einsums=None, force=None):
             facs.append(prev)
             cover |= set(decl[prev])
         nf = rnd.randint(1, 2) if facs else rnd.randint(1, 3)
+        # an input of an earlier Einsum may be read again (as gamma reads A twice)
+        if i > 0 and rnd.random() < 0.45:
+            olds = [t for ei0 in einfo for t in ei0["inputs"]
+                    if t not in outs and t not in facs and decl[t] and
+                    all(r in perm for r in decl[t])]
+            if olds:
+                t = rnd.choice(olds)
+                for r in decl[t]:
+                    if r not in ranks:
+                        ranks.append(r)
+                ranks = [r for r in perm if r in ranks]
+                facs.append(t)
+                cover |= set(decl[t])
+                reused = True
         for _ in range(nf):
             name = next(fresh)
             k = rnd.randint(1, len(ranks))
@@ -250,6 +267,8 @@ def gen_metrics(rnd, n_einsums=None, force=None):
     tags = ["metrics", "m-einsums%d" % n, "m-configs%d" % nconf]
     if any("lf_leader_not_first" in ei for ei in einfo):
         tags.append("lf-leader-not-first")
+    if reused:
+        tags.append("m-input-read-by-two-einsums")
     if any("same_rank_intersector" in ei for ei in einfo):
         tags.append("m-same-rank-intersector-across-einsums")
     if any("multi_rank_isect" in ei for ei in einfo):
@@ -327,3 +346,53 @@ def gen_merger(rnd):
                 tags=["metrics", "m-merger", "m-merger-dynamic" if dynamic else "m-merger-static",
                       "m-einsums1", "m-configs1"])
     return spec
+
+
+def gen_lf_shared(rnd):
+    """One leader-follower intersector bound to the SAME rank in two Einsums
+    with DIFFERENT leaders, the second leader being an input both Einsums
+    read:  T = A * B (leader A);  Z = B * T (leader B)."""
+    perm = rnd.sample(["M", "N", "K", "J"], rnd.randint(2, 3))
+    r = rnd.choice(perm)
+
+    def sub(must):
+        rs = [x for x in perm if x in must or rnd.random() < 0.6]
+        return rs
+    ra, rb = sub([r]), sub([r])
+    for x in perm:
+        if x not in ra and x not in rb:
+            (ra if rnd.random() < 0.5 else rb).append(x)
+    ra = [x for x in perm if x in ra]
+    rb = [x for x in perm if x in rb]
+    all1 = [x for x in perm if x in ra or x in rb]
+    out1 = [x for x in all1 if x == r or rnd.random() < 0.6]
+    decl = {"A": ra, "B": rb, "T": out1}
+    all2 = [x for x in perm if x in rb or x in out1]
+    out2 = [x for x in all2 if rnd.random() < 0.6] or [all2[0]]
+    decl["Z"] = out2
+    e1 = Einsum(_acc("T", out1), [Term("times", [_acc("A", ra), _acc("B", rb)])])
+    e2 = Einsum(_acc("Z", out2), [Term("times", [_acc("B", rb), _acc("T", out1)])])
+    npe = rnd.choice([1, 4])
+    arch = ["architecture:", "  accel:", "  - name: System", "    attributes:",
+            "      clock_frequency: 1000", "    subtree:", "    - name: %s" % _level_name("PE", npe),
+            "      local:", "      - name: Isect", "        class: Intersector",
+            "        attributes:", "          type: leader-follower",
+            "      - name: Mul0", "        class: compute", "        attributes:",
+            "          type: mul"]
+    b = ["bindings:",
+         "  T:", "  - config: accel", "    prefix: tmp/T", "  - component: Isect", "    bindings:",
+         "    - rank: %s" % r, "      leader: A", "  - component: Mul0", "    bindings:",
+         "    - op: mul",
+         "  Z:", "  - config: accel", "    prefix: tmp/Z", "  - component: Isect", "    bindings:",
+         "    - rank: %s" % r, "      leader: B"]
+    fmt = ["format:"]
+    for t, rs in decl.items():
+        fmt += ["  %s:" % t, "    default:", "      rank-order: [%s]" % ", ".join(rs)]
+        for x in rs:
+            fmt += ["      %s:" % x, "        format: C", "        cbits: 32", "        pbits: 32"]
+    lo = {"T": all1, "Z": all2}
+    st = {"T": {"space": [], "time": list(all1)}, "Z": {"space": [], "time": list(all2)}}
+    return Spec(decl, [e1, e2], rank_order={t: list(rs) for t, rs in decl.items()}, loop_order=lo,
+                spacetime=st, extra="\n".join(arch + b + fmt) + "\n",
+                tags=["metrics", "m-leader-follower", "m-lf-same-rank-different-leaders",
+                      "m-einsums2", "m-configs1"])
